@@ -18,10 +18,30 @@ def main():
     import_clastic()
     mod = importlib.import_module('vt.checks.' + prop)
     sh = Shard(prop, spec)
-    if spec.get('mode') == 'replay':
-        mod.replay(sh, unjson_bytes(spec['case']), spec)
-    else:
-        mod.run_shard(sh, spec)
+    try:
+        if spec.get('mode') == 'replay':
+            mod.replay(sh, unjson_bytes(spec['case']), spec)
+        else:
+            mod.run_shard(sh, spec)
+    except Exception as e:
+        # An exception that clastic raised into a place where the harness did not expect one: on the unchanged tree this
+        # never happens (every check runs to completion there), so it is clastic behaving in a way the monitors were not
+        # built for - reported as a violation with the traceback as witness rather than as an inconclusive run.  An
+        # exception that never touched clastic's code is the harness's own problem and stays a crash (inconclusive).
+        import os
+        import traceback
+        from vt.common import REPO
+        root = os.path.join(os.path.realpath(REPO), 'clastic') + os.sep
+        frames = traceback.extract_tb(e.__traceback__)
+        if not any(os.path.realpath(fr.filename).startswith(root) or fr.filename.startswith('<sinter') for fr in frames):
+            raise
+        where = [fr for fr in frames if os.path.realpath(fr.filename).startswith(root)]
+        last = where[-1] if where else frames[-1]
+        sh.violation('%s/unexpected-exception-from-clastic:%s' % (prop, type(e).__name__),
+                     'the workload of shard %r stopped at %s: %s, raised in %s:%d (%s); traceback tail: %s'
+                     % (spec.get('label'), type(e).__name__, str(e)[:200], os.path.basename(last.filename), last.lineno, last.name,
+                        ' | '.join('%s:%d %s' % (os.path.basename(fr.filename), fr.lineno, fr.name) for fr in frames[-6:])),
+                     {'shard': spec.get('label'), 'exception': repr(e)[:300]})
     faulthandler.cancel_dump_traceback_later()
     with open(outfile, 'wb') as f:
         pickle.dump(sh.export(), f, protocol=4)
